@@ -46,11 +46,11 @@ type Account struct {
 	Mono        bool   `json:"mono,omitempty"`
 
 	// ocra
-	Suite      SuiteSpec `json:"suite"`
-	Pin        []byte    `json:"pin,omitempty"`
-	TokPin     []byte    `json:"tok_pin,omitempty"` // nil = same
-	Session    []byte    `json:"session,omitempty"`
-	TokSession []byte    `json:"tok_session,omitempty"`
+	Suite      SuiteSpec  `json:"suite"`
+	Pin        []byte     `json:"pin,omitempty"`
+	TokPin     []byte     `json:"tok_pin,omitempty"` // nil = same
+	Session    []byte     `json:"session,omitempty"`
+	TokSession []byte     `json:"tok_session,omitempty"`
 	TokSuite   *SuiteSpec `json:"tok_suite,omitempty"` // client configured with a neighbouring suite
 }
 
@@ -59,13 +59,13 @@ type SuiteSpec struct {
 	Mode string `json:"mode"` // registered | parsed | newsuite | rawstruct | config
 	Name string `json:"name,omitempty"`
 	// hand-built configuration
-	Raw       string `json:"raw,omitempty"`
-	Hash      int    `json:"hash,omitempty"`
-	Digits    int    `json:"digits,omitempty"`
-	Challenge int    `json:"challenge,omitempty"`
+	Raw           string `json:"raw,omitempty"`
+	Hash          int    `json:"hash,omitempty"`
+	Digits        int    `json:"digits,omitempty"`
+	Challenge     int    `json:"challenge,omitempty"`
 	C, Q, P, S, T bool
-	PHash    int `json:"phash,omitempty"`
-	TimeStep int `json:"timestep,omitempty"`
+	PHash         int `json:"phash,omitempty"`
+	TimeStep      int `json:"timestep,omitempty"`
 }
 
 type Net struct {
@@ -84,15 +84,15 @@ type Event struct {
 	N    int    `json:"n,omitempty"`
 	Who  int    `json:"who,omitempty"` // jump: 0 token, 1 verifier
 	// aimed fault: realise this signed distance (token - verifier) at delivery
-	Aimed   bool  `json:"aimed,omitempty"`
-	Aim     int   `json:"aim,omitempty"`
-	PhaseS  uint64 `json:"phase_s,omitempty"` // seconds into the step (mod period)
-	PhaseNs int64 `json:"phase_ns,omitempty"`
-	Net     Net   `json:"net"`
-	Net2    Net   `json:"net2"` // OCRA: the response leg
-	Chal    []byte `json:"chal,omitempty"`
-	ViewFault int  `json:"view_fault,omitempty"` // OCRA: verifier's own input made inadmissible
-	Str     string `json:"str,omitempty"`        // arbitrary submitted string
+	Aimed     bool   `json:"aimed,omitempty"`
+	Aim       int    `json:"aim,omitempty"`
+	PhaseS    uint64 `json:"phase_s,omitempty"` // seconds into the step (mod period)
+	PhaseNs   int64  `json:"phase_ns,omitempty"`
+	Net       Net    `json:"net"`
+	Net2      Net    `json:"net2"` // OCRA: the response leg
+	Chal      []byte `json:"chal,omitempty"`
+	ViewFault int    `json:"view_fault,omitempty"` // OCRA: verifier's own input made inadmissible
+	Str       string `json:"str,omitempty"`        // arbitrary submitted string
 }
 
 // ---------------------------------------------------------------------------
@@ -441,7 +441,7 @@ func genEvent(t *rapid.T, prop string, accts []Account) Event {
 			case 0: // exactly on / just beyond the window edge
 				e.Aim = rapid.SampledFrom([]int{-(s + 1), -s, s, s + 1}).Draw(t, "aimEdge")
 			case 1:
-				e.Aim = rapid.IntRange(-(s + 3), s+3).Draw(t, "aim")
+				e.Aim = rapid.IntRange(-(s+3), s+3).Draw(t, "aim")
 			default:
 				e.Aim = 0
 			}
